@@ -17,6 +17,11 @@ CHECKS = {
    ref="7.2 / C08"),
 }
 
+CHECKS["C16"] = dict(engine="table", technique="stateful property-based testing (proptest op histories over the real IP filters, invariant after every step)",
+   text="Exploration: generated histories of the filter-respecting table API with signed records drawn from few /24 subnets, full buckets, pending promotion and subnet-moving updates; per-bucket (2) and per-table (10) limits evaluated after every elementary op. Found the pending-slot bypass of the table limit on the pinned tree (fixed).",
+   note="Trusted: enr crate for records; Entry::insert/value_mut excluded (documented to bypass filters); pending deadlines in regimes 0 / 1h+forced. Keys are real key hashes (buckets 250..255).",
+   ref="7.2 / C16")
+
 NOT_YET = {}
 
 def main():
